@@ -23,7 +23,7 @@ from kopf._core.reactor import queueing
 from kv.explorer import Env, Scenario, UserAction, Violation, execute
 from kv.harness.op import make_settings, make_vault, resource_of
 from kv.runner import CheckResult, explore_parallel
-from kv.world import KEX
+from kv.world import KEX, REPLICASETS
 
 IDLE = 1.0
 EXIT = 2.0
@@ -162,6 +162,10 @@ class QueueingScenario(Scenario):
         self.cancel_at = params.get('cancel_at')
         self.cancel2 = params.get('cancel2', False)
         self.nouid = params.get('nouid', False)
+        # listed=True: the first event's object exists before the watcher starts, i.e. it is first seen through the LISTING
+        # (of a kind whose name ends in the letters of 'List': the list's kind is turned back into the items' kind)
+        self.K = REPLICASETS if params.get('listed') else KEX
+        self.kinds = [self.K]
 
     def delays(self, env: Env, req: Any) -> bool:
         return False
@@ -183,7 +187,7 @@ class QueueingScenario(Scenario):
             # the processor reports a patched version whose echo never comes: the worker's consistency bookkeeping
             # (deadline = 0.5 s, shorter than the idle timeout and than slow processing) must not change what is processed when
             settings.persistence.consistency_timeout = 0.5
-        resource = resource_of(KEX)
+        resource = resource_of(self.K)
 
         async def processor(*, raw_event: Any, **kwargs: Any) -> None:
             obj = raw_event['object']
@@ -220,7 +224,20 @@ class QueueingScenario(Scenario):
             left = [t.get_name() for t in asyncio.all_tasks() - before if not t.done()]
             env.log('left-tasks', names=sorted(left))
 
+        if self.params.get('listed'):
+            at, uid, dur, *_ = self.events[0]
+            self._create(env, 0, uid, dur)
+            env.log('emit', seq=0, uid=uid)
         self.task = env.spawn('A', main(), name='main')
+
+    def _create(self, e: Env, i: int, uid: str, dur: float) -> None:
+        K = self.K
+        e.world.create(K, 'ns', uid, {'spec': {'seq': i, 'dur': dur}})
+        if self.nouid and uid == 'b':
+            # an object without a uid (v1/ComponentStatus-like): the fallback key.
+            o = e.world.get(K, 'ns', uid)
+            del o['metadata']['uid']
+            e.world.events[K.key][-1][2]['metadata'].pop('uid', None)
 
     def script(self, env: Env) -> list[UserAction]:
         seen: set[str] = set()
@@ -228,19 +245,15 @@ class QueueingScenario(Scenario):
 
         def mk(i: int, uid: str, dur: float, first: bool, delete: bool = False) -> Any:
             def fn(e: Env) -> None:
+                K = self.K
                 if delete:
-                    e.world.delete(KEX, 'ns', uid)
-                    gone = e.world.events[KEX.key][-1][2]
+                    e.world.delete(K, 'ns', uid)
+                    gone = e.world.events[K.key][-1][2]
                     e.memo.setdefault('deleted_rv', {})[gone['metadata']['resourceVersion']] = i
                 elif first:
-                    e.world.create(KEX, 'ns', uid, {'spec': {'seq': i, 'dur': dur}})
-                    if self.nouid and uid == 'b':
-                        # an object without a uid (v1/ComponentStatus-like): the fallback key.
-                        o = e.world.get(KEX, 'ns', uid)
-                        del o['metadata']['uid']
-                        e.world.events[KEX.key][-1][2]['metadata'].pop('uid', None)
+                    self._create(e, i, uid, dur)
                 else:
-                    e.world.merge(KEX, 'ns', uid, {'spec': {'seq': i, 'dur': dur}})
+                    e.world.merge(K, 'ns', uid, {'spec': {'seq': i, 'dur': dur}})
                 for s in e.world.open_streams():
                     while e.world.stream_next(s) is not None:
                         e.world.deliver(s)
@@ -249,6 +262,9 @@ class QueueingScenario(Scenario):
 
         items: list[tuple[float, int, str, Any]] = []
         for i, (at, uid, dur, *flag) in enumerate(self.events):
+            if i == 0 and self.params.get('listed'):
+                seen.add(uid)
+                continue      # it is there already
             items.append((at, i, f'ev{i}', mk(i, uid, dur, uid not in seen, delete=bool(flag))))
             seen.add(uid)
             if flag:
@@ -378,6 +394,10 @@ def scenarios(tier: str) -> list[QueueingScenario]:
         for lim in (None, 1):
             out.append(QueueingScenario(events=[(0.0, 'a', 0.25), (0.0, 'b', 0.0), (0.25, 'b', d_del, 'D'), (0.25 + gap, 'b', d_next)], limit=lim, nouid=True))
         out.append(QueueingScenario(events=[(0.0, 'b', 0.25), (0.0, 'b', d_del, 'D'), (gap, 'b', d_next), (gap + 0.25, 'b', 0.0)], limit=None, nouid=True))
+    # an object first seen through the listing (with and without a uid), its further events arriving while the listed state is processed
+    for d0, gap, d1 in itertools.product([0.25, 1.5], [0.0, 0.25, 1.0], [0.0, 0.25]):
+        for nouid in (False, True):
+            out.append(QueueingScenario(events=[(0.0, 'b', d0), (gap, 'b', d1), (gap + 0.25, 'a', 0.0)], limit=None, nouid=nouid, listed=True))
     # cancellation (single and double) while workers are busy / idle / waiting for a slot
     for evs in ([(0.0, 'a', 0.25), (0.0, 'a', 0.25)], [(0.0, 'a', 1.5), (0.25, 'b', 0.25), (0.25, 'a', 0.25)],
                 [(0.0, 'a', 1.5), (0.0, 'a', 1.5)], [(0.0, 'a', 0.25), (0.0, 'b', 1.5), (0.25, 'b', 0.25)]):
